@@ -37,6 +37,26 @@ type World struct {
 	order  []types.BlockID
 	xn     int
 	cpState map[types.BlockID]consensus.State // crafted checkpoint parent states (bogus-binding attack)
+	content  map[types.BlockID]types.Hash256
+	variants map[types.Hash256]*variant // blocks with a known id but different content
+}
+
+// A variant is a block that carries the id of a known block but not its content (a v2 id covers
+// neither the miner payout value nor -- except through the commitment -- the body).
+type variant struct {
+	name, parent, class string
+	height              uint64
+	cs                  consensus.State
+}
+
+func contentHash(b types.Block) types.Hash256 {
+	h := types.NewHasher()
+	if b.V2 != nil {
+		types.V2Block(b).EncodeTo(h.E)
+	} else {
+		types.V1Block(b).EncodeTo(h.E)
+	}
+	return h.Sum()
 }
 
 // NewWorld returns a copy of the repository's test network (testutil.Network) with the v2
@@ -98,6 +118,10 @@ func (w *World) register(name string, b types.Block, h uint64, class string, cs 
 	w.class[id] = class
 	w.state[id] = cs
 	w.order = append(w.order, id)
+	if w.content == nil {
+		w.content = map[types.BlockID]types.Hash256{}
+	}
+	w.content[id] = contentHash(b)
 }
 
 // Name returns the abstract name of a block id ("?xxxx" for ids the harness never built).
@@ -246,12 +270,17 @@ func (w *World) TreeJSON() map[string]any {
 		hi   bool
 	}
 	var vals []val
-	for _, id := range w.order {
-		cs := w.state[id]
+	addVals := func(name string, cs consensus.State) {
 		tw, diff := workInt(cs.TotalWork), workInt(cs.Difficulty)
-		vals = append(vals, val{tw, w.name[id], false})
+		vals = append(vals, val{tw, name, false})
 		hi := new(big.Int).Add(tw, new(big.Int).Div(diff, big.NewInt(5)))
-		vals = append(vals, val{hi, w.name[id], true})
+		vals = append(vals, val{hi, name, true})
+	}
+	for _, id := range w.order {
+		addVals(w.name[id], w.state[id])
+	}
+	for _, v := range w.variants {
+		addVals(v.name, v.cs)
 	}
 	sort.SliceStable(vals, func(i, j int) bool { return vals[i].v.Cmp(vals[j].v) < 0 })
 	lo, hi := map[string]int{}, map[string]int{}
@@ -280,6 +309,9 @@ func (w *World) TreeJSON() map[string]any {
 		}
 		ht[n] = int(w.height[id])
 		cls[n] = w.class[id]
+	}
+	for _, v := range w.variants {
+		par[v.name], ht[v.name], cls[v.name] = v.parent, int(v.height), v.class
 	}
 	return map[string]any{"par": par, "h": ht, "cls": cls, "lo": lo, "hi": hi}
 }
@@ -390,4 +422,54 @@ func (w *World) checkpointState(id types.BlockID) (consensus.State, bool) {
 	defer w.mu.Unlock()
 	cs, ok := w.cpState[id]
 	return cs, ok
+}
+
+// NameOfBlock names a block by id AND content: a block that carries a known id with different
+// content is a variant "<name>~k", classified by the oracle like any crafted block.
+func (w *World) NameOfBlock(b types.Block) string {
+	id := b.ID()
+	ch := contentHash(b)
+	w.mu.Lock()
+	name, ok := w.name[id]
+	same := ok && w.content[id] == ch
+	if v, okv := w.variants[ch]; okv {
+		w.mu.Unlock()
+		return v.name
+	}
+	pname, pok := w.name[b.ParentID]
+	pclass := w.class[b.ParentID]
+	pcs := w.state[b.ParentID]
+	ph := w.height[b.ParentID]
+	nvar := len(w.variants)
+	w.mu.Unlock()
+	if !ok {
+		return "?" + id.String()[:8]
+	} else if same {
+		return name
+	}
+	v := &variant{name: fmt.Sprintf("%s~%d", name, nvar+1), parent: "?", class: "orphan"}
+	if pok {
+		v.parent, v.height = pname, ph+1
+		v.cs = consensus.ApplyHeader(pcs, b.Header(), time.Time{})
+		v.class = "bad"
+		if consensus.ValidateOrphan(pcs, b) != nil {
+			v.class = "hdr"
+		} else if pclass == "ok" {
+			cm := w.ManagerAt(pname)
+			if err := cm.AddBlocks([]types.Block{b}); err == nil && cm.Tip().ID == id {
+				v.class = "ok"
+				v.cs = cm.TipState()
+			}
+		}
+	}
+	w.mu.Lock()
+	defer w.mu.Unlock()
+	if w.variants == nil {
+		w.variants = map[types.Hash256]*variant{}
+	}
+	if old, ok := w.variants[ch]; ok {
+		return old.name
+	}
+	w.variants[ch] = v
+	return v.name
 }
